@@ -31,7 +31,15 @@ def run_property(pid, tier, seed, root=None, write_evidence=True):
         "hpo-facts extractor",
     ]
     ctx = {"tier": tier, "seed": seed, "root": root or build.REPO, "facts": f}
-    mod.run(ck, prog, ctx)
+    try:
+        mod.run(ck, prog, ctx)
+    except Exception as e:  # a rule met a shape it does not handle: what was recorded so far stands, the rest is not decided
+        import traceback as _tb
+        if os.environ.get("HPO_LINT_STRICT"):
+            raise
+        sys.stderr.write("CHECKER-NOTE property=%s: a rule stopped at an unrecognised construct (%s: %s); reported as undecided\n" % (pid, type(e).__name__, e))
+        ck.undecided("CRASH", "rules", "the rule set stopped at an unrecognised construct (%s: %s, %s); the obligations recorded before that point stand, the remaining rules decided nothing on this tree" % (
+            type(e).__name__, e, _tb.extract_tb(e.__traceback__)[-1].lineno))
     core.apply_private_deps(ck, prog)
     import selftest
     ck.rule("SELFTEST", "every engine primitive fires on its seeded bad instance in /verif/fixtures (DESIGN 2.4)")
